@@ -21,7 +21,7 @@ Byte == 0..255
 (* the family of interesting byte values: both ends, ASCII / non-ASCII border, UTF-8 class borders, *)
 (* some ordinary values, and neighbours at distance one and two so that holes of width 1 and 2 occur *)
 Small == IF "FAM" \in DOMAIN IOEnv THEN IOEnv.FAM = "small" ELSE FALSE
-Bnd == IF Small THEN <<0, 1, 2, 47, 48, 127, 128, 129, 254, 255>>
+Bnd == IF Small THEN <<0, 1, 2, 3, 47, 48, 127, 128, 129, 254, 255>>
        ELSE <<0, 1, 2, 3, 47, 48, 49, 50, 126, 127, 128, 129, 130, 191, 192, 253, 254, 255>>
 MaxRanges == IF "MAXRANGES" \in DOMAIN IOEnv THEN atoi(IOEnv.MAXRANGES) ELSE 3
 
@@ -103,7 +103,7 @@ VARIABLES mode,    \* "class" | "e1" | "e2" | "done"
           edges    \* the finished edges of the state
 vars == <<mode, cls, pos, edges>>
 
-BndS == IF Small THEN <<0, 1, 127, 128, 254, 255>> ELSE <<0, 1, 2, 127, 128, 129, 254, 255>>
+BndS == IF Small THEN <<0, 1, 2, 127, 128, 254, 255>> ELSE <<0, 1, 2, 127, 128, 129, 254, 255>>
 Fam == IF mode = "class" THEN Bnd ELSE BndS
 Cap == IF mode = "class" THEN MaxRanges ELSE 2
 
